@@ -80,16 +80,27 @@ Definition optional {A} (r : res A) : res (option A) :=
   | RPanic => RPanic
   end.
 
+(* fix fd85c79: the member defaults whose rendering is in progress.  Rust keys them by (member type id, ADDRESS of the
+   default value), i.e. by the StructProperty instance; the model names the instance by (owner entry id, variant
+   identifier or [] for a struct, member identifier). *)
+Definition fkey := (id * ustring * ustring)%type.
+Definition fkey_eqb (a b : fkey) : bool :=
+  let '(i1, v1, n1) := a in let '(i2, v2, n2) := b in N.eqb i1 i2 && ustr_eqb v1 v2 && ustr_eqb n1 n2.
+Definition in_filling (k : fkey) (l : list fkey) : bool := existsb (fkey_eqb k) l.
+
 Section Det.
   Variable T : space.
-  Variable rec : id -> json -> res expr.
+  Variable rec : id -> json -> res expr.            (* output_value with the same FILLING stack *)
+  Variable filling : list fkey.                      (* the FILLING stack *)
+  Variable recfill : fkey -> id -> json -> res expr. (* output_value with that key pushed *)
+  Variable self : id.                                (* id of the entry being rendered *)
 
   Definition o_tuple (ts : list id) (v : json) : res (list expr) :=
     do arr <- of_opt (as_array v);
     if negb (Nat.eqb (length arr) (length ts)) then RErr else
     map_r (fun '(t, x) => rec t x) (combine ts arr).
 
-  Definition o_struct_props (props : list prop) (v : json) : res (list (fname * expr)) :=
+  Definition o_struct_props (vid : ustring) (props : list prop) (v : json) : res (list (fname * expr)) :=
     do m <- of_opt (as_object v);
     do direct <- filter_map_r (fun p =>
         match wire_name p with
@@ -101,8 +112,12 @@ Section Det.
             | None =>
                 (* fix a08c818: an absent member takes its OWN schema default (as serde does) *)
                 match p_state p with
-                | PDefault dv => do oe <- optional (rec (p_ty p) dv);
-                                 ROk (option_map (fun e => (FId (p_name p), e)) oe)
+                | PDefault dv =>
+                    (* fix fd85c79: a member default that is already being rendered is left to `Default::default()` *)
+                    let key := (self, vid, p_name p) in
+                    if in_filling key filling then ROk (Some (FId (p_name p), EDefault)) else
+                    do oe <- optional (recfill key (p_ty p) dv);
+                    ROk (option_map (fun e => (FId (p_name p), e)) oe)
                 | _ => ROk (Some (FId (p_name p), EDefault))
                 end
             end
@@ -150,7 +165,7 @@ Section Det.
             | VItem t => do oe <- optional (rec t x);
                          ROk (EVarTuple name i (match oe with Some e => [e] | None => [] end))
             | VTuple ts => do es <- o_tuple ts x; ROk (EVarTuple name i (variant_tuple es))
-            | VStruct ps => do fs <- o_struct_props ps x; ROk (EVarStruct name i fs)
+            | VStruct ps => do fs <- o_struct_props i ps x; ROk (EVarStruct name i fs)
             end
         | _ => RErr
         end
@@ -164,7 +179,7 @@ Section Det.
     do i <- var_ident var;
     match v_det var with
     | VSimple => ROk (EVarUnit name i)
-    | VStruct ps => do fs <- o_struct_props ps (JObj (remove_key tag m)); ROk (EVarStruct name i fs)
+    | VStruct ps => do fs <- o_struct_props i ps (JObj (remove_key tag m)); ROk (EVarStruct name i fs)
     | VItem _ | VTuple _ => RPanic
     end.
 
@@ -177,7 +192,7 @@ Section Det.
     match v_det var, cv with
     | VSimple, None => ROk (EVarUnit name i)
     | VTuple ts, Some c => do es <- o_tuple ts c; ROk (EVarTuple name i (variant_tuple es))
-    | VStruct ps, Some c => do fs <- o_struct_props ps c; ROk (EVarStruct name i fs)
+    | VStruct ps, Some c => do fs <- o_struct_props i ps c; ROk (EVarStruct name i fs)
     | _, _ => RErr
     end.
 
@@ -188,7 +203,7 @@ Section Det.
         | VSimple => match v with JNull => ROk (EVarUnit name i) | _ => RErr end
         | VItem t => do e <- rec t v; ROk (EVarTuple name i [e])
         | VTuple ts => do es <- o_tuple ts v; ROk (EVarTuple name i (variant_tuple es))
-        | VStruct ps => do fs <- o_struct_props ps v; ROk (EVarStruct name i fs)
+        | VStruct ps => do fs <- o_struct_props i ps v; ROk (EVarStruct name i fs)
         end) vs.
 
   Definition output_det (d : details) (v : json) : res expr :=
@@ -200,7 +215,7 @@ Section Det.
         | TagAdjacent tg c => o_adjacent name vs tg c v
         | TagUntagged => o_untagged name vs v
         end
-    | DStruct name _ props _ => do fs <- o_struct_props props v; ROk (EStruct name fs)
+    | DStruct name _ props _ => do fs <- o_struct_props [] props v; ROk (EStruct name fs)
     | DNewtype name _ t _ =>
         do oe <- optional (rec t v);
         ROk (ECtor name (match oe with Some e => [e] | None => [] end))
@@ -243,15 +258,18 @@ Section Det.
     end.
 End Det.
 
-Fixpoint output_value (T : space) (fuel : nat) (t : id) (v : json) {struct fuel} : res expr :=
+Fixpoint output_fill (T : space) (fuel : nat) (filling : list fkey) (t : id) (v : json) {struct fuel} : res expr :=
   match fuel with
   | O => RFuel
   | S n =>
       match get_det T t with
       | None => RPanic
-      | Some d => output_det T (output_value T n) d v
+      | Some d => output_det T (output_fill T n filling) filling (fun key => output_fill T n (key :: filling)) t d v
       end
   end.
+
+(* TypeEntry::output_value as called from outside: the FILLING stack is empty *)
+Definition output_value (T : space) (fuel : nat) (t : id) (v : json) : res expr := output_fill T fuel [] t v.
 
 (* ---------------------------------------------------------------- typing *)
 Fixpoint find_prop (n : ustring) (ps : list prop) : option prop :=
